@@ -124,4 +124,18 @@ func init() {
 			Bounds:  "skeleton types: 35 destination structs x 35 source field types x all toggle valuations",
 			Assumes: []string{aT, "reference matcher: a convertible pair whose target type convergen cannot spell (unnamed composite) may be reported as no match", "the Go type checker is the judge of 'compiles'"}})
 	}
+
+	// ---------------------------------------------------------------- C05 / C06 shapes, C04 names (mode T)
+	whatShapes := "real Parse + CreateFunction on skeleton shapes (nested 2 deep, embedded, identical and differing anonymous structs, imported struct with unexported members, pointer/slice of differing structs, empty struct, getters, 2 additional arguments) with two notation slots (77 x 13 menu entries: :skip exact/nested/prefix/case/regexp, :literal, :map incl. getter chains, embedded members, $n, unresolvable and invisible sources, :conv incl. error-returning, imported and to-be-generated converters, conflicting pairs, :case:off/:getter/:typecast): every reachable destination leaf (recomputed from go/types, stopping at members the package cannot see) is covered by exactly one line on itself or an enclosing path; invisible members are never mentioned; every no-match is warned with a position; a path (or ancestor) matching a :skip pattern under the method's case rule is never assigned; the first :conv / :map / $n-map / :literal naming a path (case-sensitively) supplies its value from exactly that converter / source expression / literal text or the path is reported no match; the emitted function type-checks"
+	for _, pr := range []string{"C05", "C06", "C01"} {
+		reg(&HarnessSpec{Prop: pr, Name: "C06Shapes", What: whatShapes, Bounds: "skeleton shapes; 77 x 13 notation pairs", Assumes: []string{aT, aSlots, "$n denotes the n-th method argument ($1 the source, $2 the first additional argument), as in the README example and the pinned fixture usecase/maps"}})
+	}
+	for _, pr := range []string{"C05", "C01"} {
+		reg(&HarnessSpec{Prop: pr, Name: "C05SameName", What: "the same coverage/visibility/type-check obligations where the setup package and the imported package share their package NAME (visibility must be decided by import path)", Bounds: "skeleton samename, 2 methods", Assumes: []string{aT}})
+	}
+	for _, pr := range []string{"C04", "C01"} {
+		reg(&HarnessSpec{Prop: pr, Name: "C04Names",
+			What:    "real CreateFunction on skeleton names (identical / unexported / case-differing names, getter only, getter and field, getter with error result, method with parameter, value and pointer receivers, String() on value vs pointer receiver, imported source with unexported members and getters) with all five toggles symbolic: candidate selection (getters first when on, fields only under :match name, accessibility across packages, getter eligibility) and conversion ladder equal the reference; emitted functions type-check",
+			Bounds:  "skeleton names: 3 methods x toggle valuations", Assumes: []string{aT, "a String() reachable only through the pointer receiver may or may not be used (not pinned by the property)"}})
+	}
 }
